@@ -32,10 +32,10 @@ theorem digit_not_special {c : Char} (h : isDigit c = true) : (c == '.') = false
     intro k hk e; subst e; omega
   exact ⟨by simpa using ne '.' (by decide), by simpa using ne 'e' (by decide), ne '-' (by decide)⟩
 
-theorem isDecLoop_digits (ds : List Char) (h : ∀ c ∈ ds, isDigit c = true) (sep sci : Nat)
-    (hs : sep ≤ 1) (hc : sci ≤ 1) : isDecLoop ds sep sci = true := by
-  induction ds with
-  | nil => rfl
+theorem isDecLoop_digits (ds : List Char) (h : ∀ c ∈ ds, isDigit c = true) (sep sci dig : Nat)
+    (hs : sep ≤ 1) (hc : sci ≤ 1) : isDecLoop ds sep sci dig = decide (0 < dig + ds.length) := by
+  induction ds generalizing dig with
+  | nil => simp [isDecLoop]
   | cons d ds ih =>
     have hd := h d (by simp)
     obtain ⟨n1, n2, _⟩ := digit_not_special hd
@@ -44,23 +44,32 @@ theorem isDecLoop_digits (ds : List Char) (h : ∀ c ∈ ds, isDigit c = true) (
     rw [isDecLoop.eq_def]
     simp only [n1, n2, hd, Bool.false_eq_true, if_false, Bool.not_true, gt_iff_lt, Bool.or_eq_true, decide_eq_true_eq]
     rw [if_neg (by omega)]
-    exact ih (fun c hc => h c (by simp [hc]))
+    rw [ih (fun c hc => h c (by simp [hc]))]
+    simp only [List.length_cons]
+    congr 1
+    apply propext
+    constructor <;> intro <;> omega
 
-theorem isDecLoop_dec (ds1 ds2 : List Char) (h1 : ∀ c ∈ ds1, isDigit c = true) (h2 : ∀ c ∈ ds2, isDigit c = true) :
-    isDecLoop (ds1 ++ '.' :: ds2) 0 0 = true := by
-  induction ds1 with
+theorem isDecLoop_dec (ds1 ds2 : List Char) (h1 : ∀ c ∈ ds1, isDigit c = true) (h2 : ∀ c ∈ ds2, isDigit c = true)
+    (dig : Nat) : isDecLoop (ds1 ++ '.' :: ds2) 0 0 dig = decide (0 < dig + ds1.length + ds2.length) := by
+  induction ds1 generalizing dig with
   | nil =>
     rw [List.nil_append, isDecLoop.eq_def]
     simp only [beq_self_eq_true, if_true, gt_iff_lt, Bool.or_eq_true, decide_eq_true_eq]
     rw [if_neg (by omega)]
-    exact isDecLoop_digits ds2 h2 1 0 (by omega) (by omega)
+    rw [isDecLoop_digits ds2 h2 1 0 dig (by omega) (by omega)]
+    simp
   | cons d ds ih =>
     have hd := h1 d (by simp)
     obtain ⟨n1, n2, _⟩ := digit_not_special hd
     rw [List.cons_append, isDecLoop.eq_def]
     simp only [n1, n2, hd, Bool.false_eq_true, if_false, Bool.not_true, gt_iff_lt, Bool.or_eq_true, decide_eq_true_eq]
     rw [if_neg (by omega)]
-    exact ih (fun c hc => h1 c (by simp [hc]))
+    rw [ih (fun c hc => h1 c (by simp [hc]))]
+    simp only [List.length_cons]
+    congr 1
+    apply propext
+    constructor <;> intro <;> omega
 
 theorem digit_not_space {c : Char} (h : isDigit c = true) : isSpace c = false := by
   obtain ⟨h1, h2⟩ := (isDigit_iff c).1 h
@@ -76,10 +85,12 @@ theorem isDecimalNumber_numText (neg : Bool) (ip fp : List Char) (hip : ip ≠ [
     isDecimalNumber (numText neg ip fp) = true := by
   obtain ⟨d, ds, rfl⟩ := List.exists_cons_of_ne_nil hip
   have hd := h1 d (by simp)
-  have hbody : isDecLoop ((d :: ds) ++ (if fp.isEmpty then [] else '.' :: fp)) 0 0 = true := by
+  have hbody : isDecLoop ((d :: ds) ++ (if fp.isEmpty then [] else '.' :: fp)) 0 0 0 = true := by
     by_cases hf : fp.isEmpty
-    · simp only [hf, if_true, List.append_nil]; exact isDecLoop_digits _ h1 0 0 (by omega) (by omega)
-    · simp only [hf, Bool.false_eq_true, if_false]; exact isDecLoop_dec _ _ h1 h2
+    · simp only [hf, if_true, List.append_nil]
+      rw [isDecLoop_digits _ h1 0 0 0 (by omega) (by omega)]; simp
+    · simp only [hf, Bool.false_eq_true, if_false]
+      rw [isDecLoop_dec _ _ h1 h2 0]; simp
   have hnotsp : ∀ rest pre, (pre ++ d :: rest).all isSpace = false := by
     intro rest pre; simp only [List.all_eq_false]; exact ⟨d, by simp, by simp [digit_not_space hd]⟩
   unfold isDecimalNumber numText
@@ -291,5 +302,24 @@ theorem renderRat_parse (q : Rat) (hd : isDouble q = true) (t : List Char) (h : 
   have := renderAbs_parse (decide (q < 0)) _ ha hneg (by rw [hqa]; exact hd) t h
   rw [hqa] at this
   exact this
+
+/-! ### the recogniser is C17's (`Bpp.Text.Number.isDecimalNumber '.' 'e'`) -/
+
+theorem isDigit_eq (c : Char) : isDigit c = Bpp.Text.isDigit c := by
+  unfold isDigit Bpp.Text.isDigit Char.isDigit
+  simp [Char.le_def, UInt32.le_iff_toNat_le]
+
+theorem isDecLoop_eq (l : List Char) (sep sci dig : Nat) :
+    isDecLoop l sep sci dig = Bpp.Text.Number.decLoop '.' 'e' sep sci dig l := by
+  fun_induction isDecLoop l sep sci dig <;> rw [Bpp.Text.Number.decLoop.eq_def] <;> simp_all [isDigit_eq]
+
+theorem isDecimalNumber_eq_number (l : List Char) :
+    isDecimalNumber l = Bpp.Text.Number.isDecimalNumber '.' 'e' l := by
+  unfold isDecimalNumber Bpp.Text.Number.isDecimalNumber Bpp.Text.isEmptyStr
+  have hsp : (isSpace : Char → Bool) = Bpp.Text.isSpace := rfl
+  rw [hsp]
+  split_ifs
+  · rfl
+  · split <;> simp [isDecLoop_eq]
 
 end Bpp.Describe
